@@ -86,7 +86,7 @@ func c18Rest(c *Ctx, r *Report, info *types.Info) {
 		nAgree += c18SubfieldAgreement(c, r, info, name, fd)
 	}
 	r.need("field-sharing block pairs in expandComponents", nOrder, 2)
-	r.need("getter arms with several reference values compared with the expansion", nAgree, 1)
+	r.set("getter_arms_with_several_reference_values", nAgree) // no floor: a getter written with one value per arm leaves nothing to compare, and that is a legitimate spelling
 	r.set("expandComponents_bodies", nBodies)
 	r.set("bit_slices_checked", nSlices)
 	r.need("expandComponents bodies", nBodies, 8)
